@@ -316,8 +316,12 @@ def _counter(F, b, g, D, h, body):
         o = D.origin(t['on'])
         if not (o[0] == 'rv' and o[2]['rv']['r'] == 'bin' and o[2]['rv']['op'] in ('Lt', 'Le', 'Gt', 'Ge', 'Ne')): continue
         rv = o[2]['rv']
-        for ctr_op, bound_op, ops_up in ((rv['a'], rv['b'], ('Lt', 'Le', 'Ne')), (rv['b'], rv['a'], ('Gt', 'Ge', 'Ne'))):
+        for ctr_op, bound_op, ops_up, down in ((rv['a'], rv['b'], ('Lt', 'Le', 'Ne'), False), (rv['b'], rv['a'], ('Gt', 'Ge', 'Ne'), False),
+                                               (rv['a'], rv['b'], ('Gt', 'Ge'), True), (rv['b'], rv['a'], ('Lt', 'Le'), True)):
             if rv['op'] not in ops_up: continue
+            # the loop continues on the arm where the comparison holds (`while ctr < bound` / `while ctr > bound`)
+            arms_ = {int(v): to for v, to in t['arms']}
+            if arms_.get(0) in body and t['otherwise'] not in body: continue      # continues when the comparison is false: not this direction
             co = D.origin(ctr_op)
             if co[0] != 'multi':
                 # `L + c <= bound`
@@ -333,7 +337,8 @@ def _counter(F, b, g, D, h, body):
                 e = expr_of(F, b, {'o': 'copy', 'p': d[3]['lhs']}) if False else None
                 from .dataflow import _expr_rv
                 e = _expr_rv(F, b, d[3]['rv'], 0, {})
-                ok = (e[0] == 'op' and e[1] in ('Add', 'Shl') and ((e[2] == ('multi', L) and e[3][0] == 'c' and e[3][1] >= 1)))
+                if down: ok = (e[0] == 'op' and e[1] == 'Sub' and e[2] == ('multi', L) and e[3][0] == 'c' and isinstance(e[3][1], int) and e[3][1] >= 1)
+                else: ok = (e[0] == 'op' and e[1] in ('Add', 'Shl') and ((e[2] == ('multi', L) and e[3][0] == 'c' and e[3][1] >= 1)))
                 if not ok: good = False; break
             if not good: continue
             # the bound is loop invariant: no local it reads is assigned in the loop
@@ -347,5 +352,5 @@ def _counter(F, b, g, D, h, body):
             if reads_modified(be): continue
             # every cycle performs a step
             if _cycle_avoiding(g, h, body, set(), {d[1] for d in steps}): continue
-            return 'counter _%d steps by a positive constant towards %s' % (L, expr_str(be)[:80])
+            return 'counter _%d steps %s by a positive constant towards %s' % (L, 'down' if down else 'up', expr_str(be)[:80])
     return None
